@@ -280,6 +280,22 @@ fn analyze(p: &str) -> String {
                 if s.offset >= 256 {
                     out_of_slot = true;
                 }
+                // known widths in bits
+                use storage_layout_extractor::tc::abi::AbiType as T;
+                let width = match &s.typ {
+                    T::Number { size: Some(n) } | T::UInt { size: Some(n) } | T::Int { size: Some(n) } | T::Bits { length: Some(n) } => Some(*n),
+                    T::Bytes { length: Some(n) } => n.checked_mul(8),
+                    T::Address => Some(160),
+                    T::Selector => Some(32),
+                    T::Function => Some(192),
+                    T::Bool => Some(8),
+                    _ => None,
+                };
+                if let Some(w) = width {
+                    if s.offset.checked_add(w).map_or(true, |e| e > 256) {
+                        out_of_slot = true;
+                    }
+                }
                 entries.push(format!("[\"{:#x}\", {}, \"{}\"]", s.index.0, s.offset, format!("{:?}", s.typ).replace('"', "'")));
             }
             format!(
